@@ -216,7 +216,9 @@ def preseed_collection(root, relpath, backend, kind):
 
     p = os.path.join(root, relpath.strip("/"))
     os.makedirs(os.path.dirname(p), exist_ok=True)
-    if backend == "bare":
+    if backend == "bare-empty":
+        st = BareGitStore.create(p)
+    elif backend == "bare":
         st = BareGitStore.create(p)
         st.set_type(kind)
     elif backend == "gitcfg":
